@@ -272,8 +272,21 @@ def r13(ctx, R):
                     okk = False
             elif v not in C.names_in(k):
                 okk = False
+            # ... and a stored identifier (uuid / id / class name or its
+            # id), not an object: two objects can stand for one provider
+            kv = C.inline_locals(f, k)
+            if isinstance(kv, ast.Name):
+                dk = single_def(f, kv.id)
+                kv = dk.value if dk is not None else kv
+            scalar = (isinstance(kv, ast.Attribute) and kv.attr in (
+                'uuid', 'id', 'resource_class', 'rc_id')) or (
+                    isinstance(kv, ast.Call) and src(kv.func).endswith(
+                        'id_from_string'))
+            if not scalar:
+                okk = False
         R.ob('R1.3', 'check:running-sum-key', okk,
-             'the sum is keyed by the allocation\'s provider and class',
+             'the sum is keyed by the allocation\'s provider and class '
+             '(their stored identifiers)',
              [src(k) for k in keys], func=f, node=sums[0])
     # constraint guard
     cons = [x for x in _find_raise_ifs(ctx, f, CONSTRAINTS)]
@@ -509,6 +522,36 @@ def r14(ctx, R, rule='R1.4'):
                            C.names_in(x.args[0])]
                 if stores or updates:
                     oku = True
+    if a is not None and not oku:
+        # the union written as one expression: a mapping over
+        # chain(<stored>, <new>) or {**<stored map>, **<new map>} - in both
+        # the new entries come last and win
+        full = C.inline_locals(f, a)
+        newv = src(l1.target.elts[1]) if isinstance(
+            l1.target, ast.Tuple) and len(l1.target.elts) == 2 else None
+
+        def stored(e):
+            return 'get_all_by_resource_provider' in src(e)
+
+        def new(e):
+            return newv is not None and newv in C.names_in(e) and not \
+                stored(e)
+        for x in ast.walk(full):
+            if isinstance(x, ast.DictComp) and len(x.generators) == 1 and \
+                    isinstance(x.generators[0].iter, ast.Call) and src(
+                        x.generators[0].iter.func).endswith('chain') and len(
+                            x.generators[0].iter.args) == 2 and not \
+                    x.generators[0].ifs:
+                p_, q_ = x.generators[0].iter.args
+                if stored(p_) and new(q_):
+                    oku = True
+            if isinstance(x, ast.Dict) and len(x.keys) == 2 and all(
+                    k is None for k in x.keys):
+                p_, q_ = x.values
+                if stored(p_) and new(q_):
+                    oku = True
+        if oku:
+            why = src(full)[:90]
     R.ob(rule, 'reshape:interim-is-union', oku,
          'the interim inventory starts from the stored one and overlays the '
          'new entries', why, func=f, node=inter_arg)
